@@ -194,6 +194,8 @@ class ExprMixin:
         if name in mod.classes:
             return VType(name)
         if name in mod.assigns:
+            if name not in mod.classes and self.functional_namedtuple_fields(name) is not None:
+                return VType(name)          # X = namedtuple("X", ...): a record class of the module
             v = self.module_const(name)
             return v
         if name in mod.imports:
